@@ -1239,6 +1239,18 @@ Section Calm.
     - exists extra. split; assumption.
   Qed.
 
+  (* ---------- at rest the operator does nothing by itself ---------- *)
+  Lemma rest_is_stable w : quiescent w = true ->
+    (forall o waited lost, step w (Proc o waited lost) = None) /\ step w Fire = None /\ calm_step ok w = w.
+  Proof.
+    unfold quiescent. intro Q. apply andb_true_iff in Q. destruct Q as (Q & TM). apply andb_true_iff in Q. destruct Q as (Up & Q).
+    destruct (m_queue (w_mem w)) eqn:EQ; [|discriminate]. destruct (m_timer (w_mem w)) eqn:ET; [discriminate|].
+    repeat split.
+    - intros o waited lost. cbn [CycleWorld.step]. rewrite Up, EQ. reflexivity.
+    - cbn [CycleWorld.step]. rewrite Up, ET. reflexivity.
+    - unfold calm_step. rewrite EQ, ET. reflexivity.
+  Qed.
+
   (* ---------- all of it together ---------- *)
   Theorem calm_convergence w (failing : list (hid -> outcome)) :
     calm w ->
